@@ -193,7 +193,7 @@ def r4(ctx, F):
                         for t, lab in c2.succ[s]:
                             if t not in blocks:
                                 from rules.C10 import n_zero_edge
-                                if n_zero_edge(f2, body, s, t, rb):
+                                if n_zero_edge(f2, body, s, t, {rb}):
                                     exits = True
                 ctx.check(exits, 'C12.R4', '%s:loop-exits-on-eof' % path.split('::')[-1], 'the read\'s EOF/None/Err outcome leaves the loop',
                           'a loop in %s keeps iterating when its input is closed (spin)' % path, term_loc(body, rb))
